@@ -44,6 +44,8 @@ type c13Attempt struct {
 	// During: an API call that is handled while this scrape is in flight (the target performs it
 	// before it answers): "" | setStop | clearStop | repost (the same targets list again)
 	During string `json:"during,omitempty"`
+	// Status: the code a "status" attempt is answered with (0 = 503); Prometheus accepts 200 only
+	Status int `json:"status,omitempty"`
 }
 
 type c13Case struct {
@@ -86,7 +88,11 @@ func runC13(rec *vkit.Recorder, c *c13Case) []vkit.Violation {
 		case "transport":
 			return nil, fmt.Errorf("dial tcp: connection refused (scripted)")
 		case "status":
-			return &http.Response{StatusCode: 503, Status: "503 Service Unavailable", Body: ioutil.NopCloser(bytes.NewReader(pl)), Header: h, Request: r}, nil
+			code := cur.Status
+			if code == 0 {
+				code = 503
+			}
+			return &http.Response{StatusCode: code, Status: fmt.Sprintf("%d %s", code, http.StatusText(code)), Body: ioutil.NopCloser(bytes.NewReader(pl)), Header: h, Request: r}, nil
 		case "timeout":
 			off := cur.Offset
 			if off > len(pl) {
@@ -308,6 +314,9 @@ func genC13(t *rapid.T) *c13Case {
 		a := c13Attempt{Assigned: rapid.IntRange(0, 4).Draw(t, l+"-assigned") != 0}
 		kinds := []string{"ok", "ok", "transport", "status", "body-error", "body-error", "body-error", "body-reset", "gzip-truncated", "stop", "unknown-job", "bad-hash", "timeout"}
 		a.Kind = rapid.SampledFrom(kinds).Draw(t, l+"-kind")
+		if a.Kind == "status" {
+			a.Status = rapid.SampledFrom([]int{503, 500, 404, 401, 429, 204, 206, 202, 201}).Draw(t, l+"-status")
+		}
 		if a.Kind == "timeout" {
 			timeouts++
 			if timeouts > 1 {
